@@ -386,6 +386,9 @@ func runScenario(c *harness.Ctx, s scenario, app [2]tlsk.App, kind string) {
 	if !stdInvolved && (!bytes.Equal(o.C.EKM, o.S.EKM) || len(o.C.EKM) != 32 || o.C.EKMErr != nil || o.S.EKMErr != nil) {
 		c.Violate("views-differ:exported-keying-material:"+cls, fmt.Sprintf("[%s] EKM client %x (%v) server %x (%v)", label, o.C.EKM, o.C.EKMErr, o.S.EKM, o.S.EKMErr), nil, label)
 	}
+	if !stdInvolved && !bytes.Equal(o.C.TLSUnique, o.S.TLSUnique) {
+		c.Violate("views-differ:tls-unique:"+cls, fmt.Sprintf("[%s] TLSUnique client %x server %x", label, o.C.TLSUnique, o.S.TLSUnique), nil, label)
+	}
 	// peer certificates
 	wantSrv := 2
 	if !e.gm {
